@@ -241,6 +241,18 @@ func (n *server) callHandler() (err error) {
 					if c = n.handleCallReq(req); c == nil {
 						continue
 					}
+					if string(c.remoteID) != string(req.id) {
+						// The entry is stored under the id that was dialled and removed under the id
+						// the peer announced (runClient): an endpoint announcing another id would
+						// leave a dead entry behind and the member would never be dialled again.
+						err := &P2PError{err: errors.Errorf("dialled %x but the peer announced id %x", req.id, c.remoteID), dest: req.addr, t: time.Now()}
+						n.logger.Error(err)
+						req.replyResult(nil, err)
+						if err := c.close(); err != nil {
+							n.logger.Error(&P2PError{err: errors.Errorf("conn close failed: %w", err), t: time.Now()})
+						}
+						continue
+					}
 					clients[string(req.id)] = c
 					go n.runClient(c, false)
 				}
